@@ -833,8 +833,3 @@ Lemma nst_to_server_witness : exists me inc',
   closed (io (fst (fst (fst (rloop true me (mkrec (rgen (ks me)) MNST :: inc')))))) = false /\
   tickets (ms (fst (fst (fst (rloop true me (mkrec (rgen (ks me)) MNST :: inc')))))) = 1.
 Proof. exists (ep0 ex_sc), []. vm_compute. repeat split. Qed.
-
-Lemma f13_witness : exists cc sc,
-  let s := exec (init true cc sc 0) [(false, ORequestAuth false); (false, ORead 0)] in
-  closed (io (eb s)) = true /\ alerts (io (eb s)) = [50].
-Proof. exists ex_cc, ex_sc. vm_compute. split; reflexivity. Qed.
